@@ -190,7 +190,63 @@ def mode_dump_hex(cases):
     return out
 
 
-MODES = {"roundtrip": mode_roundtrip, "dump_hex": mode_dump_hex}
+def rewrite_old(schema, proto):
+    """the archive layout skops wrote under an older protocol, at every nesting position"""
+    n = {"fn": 0, "rg": 0}
+
+    def walk(j):
+        if isinstance(j, dict):
+            j = {k: walk(v) for k, v in j.items()}
+            if j.get("__loader__") == "FunctionNode" and proto == 0:
+                j["content"] = {"module_path": j["__module__"], "function": j["__class__"]}
+                n["fn"] += 1
+            if j.get("__loader__") == "RandomGeneratorNode" and proto <= 1 and isinstance(j.get("content"), dict):
+                j["content"] = {"bit_generator": j["content"]["bit_generator"]}
+                n["rg"] += 1
+            return j
+        if isinstance(j, list):
+            return [walk(x) for x in j]
+        return j
+    out = walk(schema)
+    out["protocol"] = proto
+    return out, n
+
+
+def mode_old_layouts(cases):
+    """C08: a value dumped now, rewritten into the protocol-0 / protocol-1 layouts, must load to the same value"""
+    import skops.io as sio
+    out = []
+    for spec in cases:
+        rec = {}
+        try:
+            obj = build(spec)
+            data = sio.dumps(obj)
+        except Exception as e:
+            out.append({"skip": type(e).__name__})
+            continue
+        fp0 = fingerprint(obj)
+        with zipfile.ZipFile(io.BytesIO(data)) as z:
+            members = {n: z.read(n) for n in z.namelist() if n != "schema.json"}
+            schema = json.loads(z.read("schema.json"))
+        for proto in (0, 1, schema["protocol"]):
+            new, n = rewrite_old(schema, proto)
+            buf = io.BytesIO()
+            with zipfile.ZipFile(buf, "w") as z:
+                z.writestr("schema.json", json.dumps(new))
+                for k, v in members.items():
+                    z.writestr(k, v)
+            d2 = buf.getvalue()
+            try:
+                gut = sio.get_untrusted_types(data=d2)
+                back = sio.loads(d2, trusted=gut)
+                rec[str(proto)] = {"rewritten": n, "result": "same" if fingerprint(back) == fp0 else "DIFFERENT"}
+            except Exception as e:
+                rec[str(proto)] = {"rewritten": n, "result": "raises:" + exc_name(e)}
+        out.append(rec)
+    return out
+
+
+MODES = {"roundtrip": mode_roundtrip, "dump_hex": mode_dump_hex, "old_layouts": mode_old_layouts}
 
 if __name__ == "__main__":
     req = json.load(sys.stdin)
